@@ -364,8 +364,9 @@ def monitor_c(case, line):
     return None, ("selection_bit_identical" if sel == sub else "selection_within_tolerance")
 
 
-def monitor_perm(lines_of_family):
-    """numeric entries and key sets of combine_ingredients over all orders of one list"""
+def monitor_perm(lines_of_family, scale):
+    """numeric entries and key sets of combine_ingredients over all orders of one list; scale: magnitude
+    of the contributions per key (the same for every order)"""
     base = None
     for line in lines_of_family:
         a = pilist(line[2:].split(" ; ")[1])
@@ -378,7 +379,7 @@ def monitor_perm(lines_of_family):
         if set(f) != set(base):
             return "key sets differ between two orders"
         for k, v in f.items():
-            if k[2] != "t" and not close_vals(v, base[k], None):
+            if k[2] != "t" and not close_vals(v, base[k], scale.get(k)):
                 return "entry %s differs between two orders: %s vs %s" % (k, v, base[k])
     return None
 
@@ -560,8 +561,12 @@ def run(rep, tier, seed):
             continue
         if note:
             stats["C_" + note] += 1
+        toks_ = lst(case.split(" ")[1], ",")
+        idx_ = [int(x) for x in lst(case.split(" ")[2], ".")]
+        sc_all = spec_list(toks_)[1]
+        sc_sel = spec_list([toks_[i] for i in idx_])[1] if all(i < len(toks_) for i in idx_) else {}
         if f is not None:
-            families.setdefault(f, []).append(li)
+            families.setdefault(f, ([], sc_all))[0].append(li)
         # model vs implementation: the three lists (tolerance), the held list (exact)
         ip, mp = li[2:].split(" ; "), lm[2:].split(" ; ")
         bad = None
@@ -573,16 +578,16 @@ def run(rep, tier, seed):
                 if (a.startswith("panic"), a == "-") != (b.startswith("panic"), b == "-") or b == "panic:type":
                     bad = "panic / no panic"
                 continue
-            if cmp_lists(flat(pilist(a)), flat(pilist(b)), None, "model"):
+            if cmp_lists(flat(pilist(a)), flat(pilist(b)), sc_all if k == 1 else sc_sel, "model"):
                 bad = "list %d" % k
         if bad:
             disagreements.append((case, {"case": case, "what": bad, "impl": li[:3000], "model": lm[:3000]}))
         if len(lst(case.split(" ")[1], ",")) >= 2:
             distinct.add(ip[0] + ip[1])
-    for f, ls in families.items():
+    for f, (ls, sc) in families.items():
         stats["C_permutation_families"] += 1
         stats["C_permutations"] += len(ls)
-        m = monitor_perm(ls)
+        m = monitor_perm(ls, sc)
         if m:
             first = next(c for c, ff in zip(c_cases, fam) if ff == f)
             monitor_hits.append((first, "permutation: " + m, {"case": first, "violated": m, "family_outputs": ls[:6]}))
